@@ -224,13 +224,21 @@ int main(int argc, char* const* argv)
     }
     char* script_str = nullptr;
     if (pipe_in) {
-        char buf[1024];
-        if (!fgets(buf, 1024, stdin)) {
+        // read the whole first line (scripts longer than a fixed buffer were silently cut, and a
+        // failed read left the buffer uninitialised)
+        std::string line;
+        int ch;
+        bool got_input = false;
+        while ((ch = fgetc(stdin)) != EOF) {
+            got_input = true;
+            if (ch == '\n') break;
+            line += (char)ch;
+        }
+        if (!got_input) {
             fprintf(stderr, "warning: no input\n");
         }
-        int len = strlen(buf);
-        while (len > 0 && (buf[len-1] == '\n' || buf[len-1] == '\r')) buf[--len] = 0;
-        script_str = strdup(buf);
+        while (!line.empty() && (line.back() == '\n' || line.back() == '\r')) line.pop_back();
+        script_str = strdup(line.c_str());
     } else if (ca.l.size() > 0) {
         script_str = strdup(ca.l[0]);
         ca.l.erase(ca.l.begin(), ca.l.begin() + 1);
